@@ -76,7 +76,7 @@ func mutateBoth(rt *rapid.T, mt *am.Type, lt types.Type) string {
 func TestEqualAfterMutation(t *testing.T) {
 	const test = "EqualAfterMutation"
 	hx.Rule(test, "rapid (universe, type) instantiated as two disjoint llir objects a and b: Equal(a,b) is evaluated (so that anything a comparison may memoise is memoised), then the same edit is applied to both through the exported fields (Variadic, Params, RetType, Fields, Packed, Len, Scalable, AddrSpace, BitSize), also one level down (element, return type, first field or parameter): Equal(a,b) and Equal(b,a) must still hold; then a second edit is applied to a only: Equal must answer what the reference identity answers for the edited descriptions, in both directions, and a must still equal itself and a fresh instantiation of its edited description. Non-trivial = an edit was applied")
-	hx.Check(t, test, hx.N(2500, 60000), func(rt *rapid.T) {
+	hx.Check(t, test, hx.N(2500, 400000), func(rt *rapid.T) {
 		u := gen.GenUniverseWith(rt, 3, true)
 		ty := gen.AnyType(rt, u, rapid.IntRange(1, 3).Draw(rt, "depth"))
 		c := tcase{U: u, Types: []*am.Type{ty}}
